@@ -28,7 +28,7 @@ def main():
         env = dict(os.environ, VERIF_REPO=str(wt))
         for pid in pids:
             p = subprocess.run(["./check", pid, "--tier", os.environ.get("SEED_TIER", "quick")], cwd=str(vcopy), env=env, capture_output=True, text=True, timeout=3600)
-            lines = [l for l in p.stdout.splitlines() if l.startswith(("VIOLATION", "OK", "KNOWN-FINDING", "  - "))]
+            lines = [l for l in p.stdout.splitlines() if l.startswith(("VIOLATION", "OK", "  - "))]
             results[pid] = {"rc": p.returncode, "lines": [l[:300] for l in lines[:8]]}
             print("==", pid, "rc=%d" % p.returncode)
             for l in lines[:8]:
